@@ -136,7 +136,7 @@ func goroutineDump() []string {
 	return out
 }
 
-var c13Points = []string{"before-any-byte", "partial-frame", "joined-commands-unread", "after-reading-some-commands", "during-write-callback", "at-timer-expiry", "during-teardown", "after-responding-to-some"}
+var c13Points = []string{"before-any-byte", "partial-frame", "joined-commands-unread", "after-reading-some-commands", "during-write-callback", "at-timer-expiry", "during-teardown", "after-responding-to-some", "manager-behind"}
 
 type c13Scenario struct {
 	Point     string `json:"disconnect_point"`
@@ -251,6 +251,44 @@ func c13Run(srv *svc.Server, sc c13Scenario, r *core.Rand) (viol [][2]string, in
 		}
 		launch(sc.K, 0)
 		time.Sleep(timeout + time.Duration(r.Intn(600)-300)*time.Microsecond)
+		closeIt()
+	case "manager-behind":
+		// the single session-manager goroutine is running behind (blocked pushing a 4th command into terminal B's 3-slot
+		// queue while B's writer sits in a slow write callback); commands for terminal A queue up at the manager; A's peer
+		// goes away; then B's writer resumes. Every call — for A and for B — must still return.
+		if !joined() {
+			t.Close()
+			return nil, true, false, nil
+		}
+		tb, err := svc.Dial(srv.Addr, r.Bool(), sc.Key+"9")
+		if err != nil {
+			t.Close()
+			return nil, true, false, nil
+		}
+		defer tb.Close()
+		tb.Write(tb.Frame(0x0002, 1, nil))
+		if rx, ok, to := tb.Next(20 * time.Second); to || !ok || rx.F == nil {
+			t.Close()
+			return nil, true, false, nil
+		}
+		svc.SlowWrite.Store(tb.Phone, 25*time.Millisecond)
+		defer svc.SlowWrite.Delete(tb.Phone)
+		tb.Write(tb.Frame(0x0002, 2, nil))
+		tb.Write(tb.Frame(0x0002, 3, nil))
+		time.Sleep(2 * time.Millisecond)
+		for i := 0; i < 5; i++ { // B's commands: the 4th push blocks the manager
+			wg.Add(1)
+			go func(i int) {
+				defer wg.Done()
+				res := sendCmd(srv.G, tb.Phone, consts.P8104QueryTerminalParams, nil, timeout, timeout+slack+2*time.Second)
+				mu.Lock()
+				results = append(results, res.kind)
+				mu.Unlock()
+			}(i)
+		}
+		time.Sleep(3 * time.Millisecond)
+		launch(sc.K, 0) // A's commands queue behind B's at the manager
+		time.Sleep(time.Duration(500+r.Intn(1500)) * time.Microsecond)
 		closeIt()
 	case "during-teardown":
 		if !joined() {
